@@ -11,12 +11,6 @@ Local Open Scope string_scope.
 Local Open Scope list_scope.
 
 (* ------------------------------------------------------------------ bookkeeping *)
-Lemma nodup_names_sound l : nodup_names l = true -> NoDup l.
-Proof.
-  induction l as [|x t IH]; simpl; intros H; [constructor|]. apply andb_true_iff in H. destruct H as [N H].
-  constructor; [apply mem_false, negb_true_iff, N|apply IH, H].
-Qed.
-
 Lemma perm_width (cs : list string) (l l' : list (list val)) : Permutation l l' -> Forall (fun r => List.length r = List.length cs) l' -> Forall (fun r => List.length r = List.length cs) l.
 Proof. intros P F. apply Forall_forall. intros r I. rewrite Forall_forall in F. apply F. eapply Permutation_in; eassumption. Qed.
 
@@ -225,7 +219,7 @@ Section Main.
       + apply Nat.leb_gt in En. fold (window_situation wd w) in H, Ww. destruct (window_situation wd w) eqn:Ws0.
         * (* windowed *)
           apply andb_true_iff in Cw. destruct Cw as [Wok Wd]. subst wd.
-          apply andb_true_iff in Ww. destruct Ww as [Ww Wf]. apply andb_true_iff in Ww. destruct Ww as [Ww Wnd]. apply andb_true_iff in Ww. destruct Ww as [Wdj Wsub].
+          apply andb_true_iff in Ww. destruct Ww as [Ww Wf]. apply andb_true_iff in Ww. destruct Ww as [Ww Wnd]. apply andb_true_iff in Ww. destruct Ww as [Ww Wsub]. apply andb_true_iff in Ww. destruct Ww as [_ Wdj].
           assert (ops_order_sensitive ops = true -> window_total fl_pandas (cols u') w (rows u')) as G' by (intros Os; apply (TOw eq_refl Os u' Eu')).
           destruct (window_step Wok ops w u t (column_names s)) as [Ex Wx]; try assumption.
           { rewrite <- Cu'. apply refines_same_set, Rf. }
